@@ -455,7 +455,7 @@ package leader
 
 //@ func (e *kvElection) becomeLeader(token, rev)
 //@   tags C02 C05 C08 C18 C19 C09
-//@   requires C02+C05.claim_backed_by_own_write: Own(rev) && rev != 0 && PubTok(rev) == token && PubID(rev) == e.cfg.InstanceID && OwnTok(token)
+//@   requires C02+C05+C18.claim_backed_by_own_write: Own(rev) && rev != 0 && PubTok(rev) == token && PubID(rev) == e.cfg.InstanceID && OwnTok(token)
 //@   ghost inBecomeLeader Bool = true
 //@   ghost wasLeaderAtLock Bool = false
 //@   ghost promoteSet Bool = false
